@@ -31,18 +31,17 @@ try:
     else:
         rc, o = sh("cd %s && /venv/bin/python -m pytest -q -p no:cacheprovider -x 2>&1 | tail -1" % wt)
         out["tests"] = o.strip()
-        if a.demo:
-            # the demonstration checks it runs against the seeding worktree: rewrite that path
-            txt = open(a.demo).read()
-            if a.seed_dir:
-                txt = txt.replace(a.seed_dir.rstrip("/"), wt)
-            dpath = os.path.join(scratch, "demo.py")
-            open(dpath, "w").write(txt)
-            rc, o = sh("cd %s && PYTHONPATH=%s /venv/bin/python -W ignore %s" % (wt, wt, dpath), timeout=600)
-            out["demo_with_change_rc"] = rc
-            out["demo_with_change_tail"] = o.strip()[-300:]
-            rc2, o2 = sh("git -C %s stash -q && cd %s && PYTHONPATH=%s /venv/bin/python -W ignore %s; rc=$?; git -C %s stash pop -q; exit $rc" % (wt, wt, wt, dpath, wt), timeout=600)
+        if a.demo and a.seed_dir:
+            # run the demonstration where it was written (its own scratch worktree): without and with the change
+            sd = a.seed_dir.rstrip("/")
+            sh("git -C %s checkout -- ." % sd)
+            rc2, o2 = sh("cd %s && PYTHONPATH=%s /venv/bin/python -W ignore %s" % (sd, sd, a.demo), timeout=900)
             out["demo_without_change_rc"] = rc2
+            rca, oa = sh("git -C %s apply %s" % (sd, a.patch))
+            rc, o = sh("cd %s && PYTHONPATH=%s /venv/bin/python -W ignore %s" % (sd, sd, a.demo), timeout=900)
+            sh("git -C %s checkout -- ." % sd)
+            out["demo_with_change_rc"] = rc if rca == 0 else "patch-did-not-apply-in-seed-dir"
+            out["demo_with_change_tail"] = o.strip()[-300:]
         for pid in a.checks.split(","):
             env = dict(os.environ, VERIF_REPO=wt, VERIF_EVIDENCE_DIR=scratch, VERIF_REPLAY_DIR=scratch)
             p = subprocess.run(["/verif/check", pid, "--tier", a.tier], capture_output=True, text=True, env=env, cwd="/verif", timeout=3600)
